@@ -34,6 +34,16 @@ func c14Gen(rt *rapid.T) rigScenario {
 			n := rapid.OneOf(rapid.IntRange(1, 50), rapid.IntRange(51, 2000), rapid.SampledFrom([]int{vMaxUnit - 1, vMaxUnit, vMaxUnit + 1, vMaxUnit + 2, 2 * vMaxUnit, 8192})).Draw(rt, "n")
 			sizes = append(sizes, n)
 			sc.Ops = append(sc.Ops, rigOp{K: "write", Side: side, S: s, N: n})
+		case k < 48:
+			// the relay path: datagrams from a message-oriented source through ReadFrom, sizes up to one frame's capacity
+			nd := rapid.IntRange(1, 4).Draw(rt, "ndg")
+			var l []int
+			for j := 0; j < nd; j++ {
+				n := rapid.OneOf(rapid.IntRange(1, 2000), rapid.IntRange(vMaxUnit-20, vMaxUnit), rapid.SampledFrom([]int{vMaxUnit, vMaxUnit - 1, 8192, 1})).Draw(rt, "dgn")
+				sizes = append(sizes, n)
+				l = append(l, n)
+			}
+			sc.Ops = append(sc.Ops, rigOp{K: "dgfrom", Side: side, S: s, L: l})
 		case k < 68:
 			sc.Ops = append(sc.Ops, genDeliver(rt, sc.Cfg.NumConn))
 		case k < 95:
@@ -100,6 +110,12 @@ func c14Final(r *rig) (interleaved bool, err error) {
 						break
 					}
 				}
+				if s.dgMaybe[i] {
+					if idx >= 0 {
+						wire = append(wire[:idx], wire[idx+1:]...)
+					}
+					continue
+				}
 				if refused[i] {
 					if idx >= 0 {
 						return false, vk.Violatef("stream %d side %d: a datagram of %d bytes was refused by Write but is on the wire", s.id, s.side, len(sent))
@@ -136,7 +152,7 @@ func c14Final(r *rig) (interleaved bool, err error) {
 			refused[i] = true
 		}
 		for i := range s.dgSent {
-			if !refused[i] && !s.dgMatched[i] {
+			if !refused[i] && !s.dgMaybe[i] && !s.dgMatched[i] {
 				return interleaved, vk.Violatef("stream %d: datagram #%d (%d bytes) written by side %d was never delivered although the stream stayed open and the session healthy", s.id, i, len(s.dgSent[i]), s.side)
 			}
 		}
